@@ -163,12 +163,46 @@ let run_sched args =
             (string_of_cn sc.Model.npolls)))
   | _ -> "bad-args"
 
+(* ---- sanitizer level: Mp4/San.v's programme over BufReader(32)<base> under a schedule (Base/AsyncSan.v) ---- *)
+let show_perr (e : Model.perr) = match e with
+  | InvalidBoxLayout -> "InvalidBoxLayout" | InvalidInput -> "InvalidInput"
+  | MissingRequiredBox _ -> "MissingRequiredBox" | TruncatedBox -> "TruncatedBox"
+  | UnsupportedBox _ -> "UnsupportedBox" | UnsupportedBoxLayout -> "UnsupportedBoxLayout"
+  | UnsupportedFormat _ -> "UnsupportedFormat"
+  | _ -> "webp-error"
+let show_san (r : Model.out Model.res) : string = match r with
+  | Ok o ->
+    let sp = o.Model.o_data in
+    let tail = " " ^ string_of_cn sp.Model.s_off ^ " " ^ string_of_cn sp.Model.s_len in
+    (match o.Model.o_metadata with
+     | None -> "ok none" ^ tail
+     | Some (md, pad) -> "ok some " ^ hex md ^ String.make (2 * int_of_cn pad) '0' ^ tail)
+  | EParse e -> "err parse " ^ show_perr e
+  | EIo e -> "err io " ^ ioerr_name e
+  | Panic _ -> "panic"
+  | OutOfFuel -> "model-out-of-fuel"
+
+let run_sanasync args =
+  match args with
+  | [base; data; bits] ->
+    let data = unhex data in
+    let (a, s0, _) = build_async (parse_stack base) [] data N0 in
+    let cfg = { Model.max_metadata_size = Model.dEFAULT_MAX_METADATA_SIZE; Model.cumulative_mdat_box_size = None } in
+    let prog = Model.sanitize_prog cfg (nat_of_int (List.length data / 8 + 4)) in
+    let st = Model.buf_init a.Model.ard s0 in
+    let (sr, _) = Model.run_san_sync Model.bOXHEADER_MAX_SIZE a prog st in
+    (match Model.run_san_sched Model.bOXHEADER_MAX_SIZE a prog st { Model.bits = parse_bits bits; Model.npolls = N0 } with
+     | None -> "model-drive-out-of-fuel"
+     | Some ((r, _), sc) ->
+       Printf.sprintf "sync=[%s] async=[%s] polls=%s" (show_san sr) (show_san r) (string_of_cn sc.Model.npolls))
+  | _ -> "bad-args"
+
 let dispatch kind args =
   try
     match kind with
     | "hist" -> run_hist args
     | "sched" -> run_sched args
-    | "sanasync" -> "-"          (* implementation-side only: the oracle compares async with sync *)
+    | "sanasync" -> run_sanasync args
     | _ -> "unknown-kind " ^ kind
   with
   | Model_panic -> "panic"
